@@ -149,4 +149,48 @@ theorem image_resource_resave {α : Type} {c : PCodec α} {L : α → Prop} (hc 
   have hwf' : (⟨r.signature, r.key, r.name, c.encT v⟩ : Resource).WF := ⟨hrwf.1, hrwf.2.1, hrwf.2.2.1, hlen⟩
   exact ⟨henc, hwf', fun pre post => resourcePayload_of hr _ hwf' v hw henc pre post⟩
 
+/-! ### the side conditions are decidable (for the `decide`d examples) -/
+
+instance (x : SlicesV6) : Decidable (SlicesV6.ResaveOK x) := by unfold SlicesV6.ResaveOK; exact inferInstance
+instance (x : Slices) : Decidable (Slices.ResaveOK x) := by
+  unfold Slices.ResaveOK; cases x.data <;> simp only <;> exact inferInstance
+def slicesDec (v : Slices) : Decidable (Slices.ResaveOK v) := inferInstance
+def blockDec (v : Descriptor.Block) : Decidable v.KeysFull := inferInstance
+
+instance RClass.decResaveOK : (c : RClass) → (v : c.Val) → Decidable (c.ResaveOK v)
+  | .resolutionInfo, _ => isTrue trivial
+  | .alphaNamesPascal, _ => isTrue trivial
+  | .pascalString, _ => isTrue trivial
+  | .color, _ => isTrue trivial
+  | .printFlags, _ => isTrue trivial
+  | .halftoneScreens, _ => isTrue trivial
+  | .transferFunctions, _ => isTrue trivial
+  | .shortInteger, _ => isTrue trivial
+  | .layerGroupInfo, _ => isTrue trivial
+  | .gridGuidesInfo, _ => isTrue trivial
+  | .thumbnailV4, _ => isTrue trivial
+  | .byte, _ => isTrue trivial
+  | .thumbnail, _ => isTrue trivial
+  | .integer, _ => isTrue trivial
+  | .alphaNamesUnicode, _ => isTrue trivial
+  | .slices, v => slicesDec v
+  | .stringElement, _ => isTrue trivial
+  | .alphaIdentifiers, _ => isTrue trivial
+  | .urlList, _ => isTrue trivial
+  | .versionInfo, _ => isTrue trivial
+  | .printScale, _ => isTrue trivial
+  | .pixelAspectRatio, _ => isTrue trivial
+  | .descriptorBlock, v => blockDec v
+  | .layerSelectionIDs, _ => isTrue trivial
+  | .layerGroupEnabledIDs, _ => isTrue trivial
+  | .displayInfo, _ => isTrue trivial
+  | .printFlagsInfo, _ => isTrue trivial
+instance (tb : Descriptor.Tables) (r : TRes) : Decidable (r.ResaveOK tb) := by
+  unfold TRes.ResaveOK
+  cases r.data with
+  | raw b => simp only; exact inferInstance
+  | typed c v => simp only; exact @instDecidableAnd _ _ (RClass.decResaveOK c v) inferInstance
+instance (tb : Descriptor.Tables) (x : ResPSD) : Decidable (x.ResourcesOK tb) := by unfold ResPSD.ResourcesOK; exact inferInstance
+
+
 end PsdVerif.Payload3
